@@ -159,6 +159,9 @@ def job_torque(with_current):
         O.cover("torque:returns")
         T = motor.driving_torque
         O.prove("torque:is-a-Torque", H.kind(T) == "Torque", props=("C08", "C17"))
+        if H.kind(T) != "Torque":
+            O.fail("torque:compute_torque-sets-driving_torque", props=("C08", "C02"), note=f"driving_torque is {T!r} after compute_torque")
+            return
         W0, TM, W = H.SI(q["w0"]), H.SI(q["Tm"]), H.SI(w)
         if with_current:
             cases = spec_torque(D, W, W0, TM, H.SI(q["i0"]), H.SI(q["im"]))
@@ -182,6 +185,9 @@ def job_torque(with_current):
         O.cover("current:returns")
         I = motor.electric_current
         O.prove("current:is-a-Current", H.kind(I) == "Current", props=("C08", "C17"))
+        if H.kind(I) != "Current":
+            O.fail("current:compute_electric_current-sets-electric_current", props=("C08",), note=f"electric_current is {I!r}")
+            return
         ccases = spec_current(D, H.SI(T), TM, H.SI(q["i0"]), H.SI(q["im"]))
         O.prove("current:equals-documented-law", cases_goal(ccases, H.SI(I)), props=("C08", "C07", "C15"), outputs=[H.SI(I), H.SI(T)])
         changed = [k for k, v in motor.__dict__.items() if before.get(k, None) is not v]
